@@ -36,6 +36,17 @@ def strategy(shard):
         cfg = draw(nonneg.config(shard["family"]))
         x = draw(nonneg.sample(cfg))
         u = cfg["u"]
+        before = None
+        if cfg["N"] is not None and draw(st.integers(0, 120)) == 0:
+            # a long sample (a thousand draws or more), evaluated right after a sample of the same length from a population
+            # of another size (two contests of one audit): behaviour must not depend on the size of the sample
+            n = draw(st.sampled_from([1000, 1024, 1200]))
+            cfg["N"] = n + draw(st.integers(0, 400))
+            vals = [draw(nonneg._value(u, cfg["t"])) for _ in range(4)]
+            x = [float(vals[(i // 37) % 4]) for i in range(n)]
+            before = {"N": cfg["N"] + draw(st.sampled_from([1, 777, 5000]))}
+            conv = {"mu": u * 0.5, "lam": 0.5 / u, "eta_frac": 0.5}
+            return {"cfg": cfg, "x": x, "conv": conv, "before": before}
         if cfg["estim"] == "optimal_comparison" and draw(st.integers(0, 5)) == 0:
             # no two-vote overstatements assumed: the alternative sits exactly on the upper bound, so one draw of 0 sets the
             # statistic to 0 for good, however many large draws follow
@@ -183,6 +194,12 @@ def evaluate(case, out):
     out.cls(cfg["family"])
     test = nonneg.make_test(cfg)
     xa = nonneg.natural(x)   # whole-number samples are integer-typed arrays, as 0/1 assorter values are
+    if case.get("before"):
+        out.cls("long-sample-after-another-population-size")
+        try:
+            nonneg.make_test(dict(cfg, N=case["before"]["N"])).test(nonneg.natural(list(reversed(x))))
+        except Exception:  # noqa  (that other evaluation is not what is judged here)
+            pass
     try:
         keep = xa.copy()
         p, hist = test.test(xa)
